@@ -107,3 +107,41 @@ def check_files_rules(ctx, rid):
             good = good and recv is not None and recv.has_leaf("param:2") and not shrinkers_in(recv)
             okt, hit = unreachable_without(fb, trues, removed_edges=t_e)
             ctx.require(rid, good and okt, "%s:%s" % (cf.file, cf.line), "check_files answers true only after every listed file was tested", ["check_files", "all-files"])
+
+
+def file_identity_rules(ctx, rid):
+    """each stored object has its own path: get_file_full_path, evaluated per FileType, takes the key's extension from
+    fm.pk_file_ext, the certificate's from fm.cert_file_ext, the account's is `bin`, and hands the file type to the name
+    template; FileManager's two extension fields come from the like-named configuration getters/options"""
+    from ..absint import Val, marker, run, some, struct_val, variant
+    from .c13 import GETTERS, fm_wiring_rule
+    prog = ctx.prog
+    fm_wiring_rule(ctx, rid, {k: v for k, v in GETTERS.items() if k.endswith("_ext")})
+    gp = prog.must_body("acmed::storage::get_file_full_path")
+    FMK = "acmed::storage::FileManager"
+    want = {"PrivateKey": "PKEXT", "Certificate": "CERTEXT"}
+    for ft in prog.adt_variants(FT):
+        fm = struct_val(prog, FMK, {"pk_file_ext": some(marker("PKEXT")), "cert_file_ext": some(marker("CERTEXT")), "crt_directory": marker("CRTDIR"),
+                                    "account_directory": marker("ACCDIR")})
+
+        def model(cs, args):
+            if cs.is_("acmed::template::render_template"):
+                return Val("adt", [Val("unknown", "RENDERED")], ("core::result::Result", "Ok"))
+            return None
+        r = run(gp, {1: Val("ref", fm), 2: variant(FT, ft)}, model, max_steps=20000)
+        rt = [a for c, a, res in r.calls if c.is_("acmed::template::render_template")]
+        if ft in want:
+            ext = None
+            ftv = None
+            if rt and len(rt[0]) > 1:
+                data = rt[0][1].deref()
+                if data.k == "adt":
+                    names = prog.adt_fields("acmed::storage::CertFileFormat")
+                    ext = repr(data.v[names.index("ext")].deref())
+                    ftv = repr(data.v[names.index("file_type")].deref())
+            ctx.require(rid, ext is not None and want[ft] in ext and all(o not in ext for k_, o in want.items() if k_ != ft), "%s:%s" % (gp.file, gp.line),
+                        "the %s file name uses its own configured extension (%s; run %s)" % (ft, ext, r.kind), ["storage::get_file_full_path", "ext", ft])
+            ctx.require(rid, ftv is not None and ("to_string" in ftv or ft in ftv), "%s:%s" % (gp.file, gp.line), "the name template receives the file type (%s)" % ftv,
+                        ["storage::get_file_full_path", "file-type-var", ft])
+        else:
+            ctx.require(rid, r.kind == "return" and not rt, "%s:%s" % (gp.file, gp.line), "the account file name does not go through the certificate name template", ["storage::get_file_full_path", "account-name"])
